@@ -449,3 +449,23 @@ CLAIMS = {
                 "the repository's tests); one consequence of the C01 iterator finding.",
     },
 }
+
+
+# additions of round 3 (appended to the claim texts above)
+ROUND3 = {
+    'C07': ' Bounded addition: the same four goal-graph checks on 1806 generated functions (every chain of <= 3 nested if / if-else / while True / while / for / try-except around 7 innermost bodies; quick: depth <= 2 and a seeded sample of depth 3).',
+    'C08': ' The AST line ranges enter _in_cover as ghost fields (first line, last line, list of definitions; scope_line_range and nodes_of_class are assumed to return them) and refutations are replayed on real ast nodes built from the counter-model. Bounded addition: a module of one-line definitions (also as last statement of their scope) with every scope as only_cover / no_cover entry.',
+    'C19': ' Bounded addition: the real TestSuiteWriter.write (with and without AssertionMinimization and UnusedStatementsTestCaseVisitor) on every ordered selection of <= 2 (thorough 3) of 6 test cases, among them test cases whose statements coincide once unused bindings are stripped but whose assertions differ; the written file is parsed and every attached assertion must follow its statement in some exported function.',
+    'C20': ' Bounded addition: the recorded assertion must describe the value as observed - after in-place changes of every container reachable from the observed object, the rendered assertion is evaluated against a deep copy taken before the observation.',
+    'C21': " Proved in addition: RemoteAssertionVerificationObserver.after_statement_execution records, at the statement's position, every assertion whose evaluation fails or raises (for all statements and any number of assertions; rendering, compile and exec enter as assumed contracts over an uninterpreted verdict function of source text and namespace; the trace is a defaultdict), never forgets what was recorded before, and raises only the tracer's abort signal; AssertionVerificationTrace.was_violated and merge against the set-theoretic definition. Bounded additions for the first clause and the glue: the observer on every verdict vector of <= 4 (5) assertions, __remove_non_holding_assertions on two statements with every failed/error index set, __minimize_assertions / __remove_non_relevant_assertions on 400 (1500) random traces (kept assertions kill what the full set killed), and real AssertionGenerator / MutationAnalysisAssertionGenerator runs on a module with per-call state followed by an independent re-execution of the kept assertions.",
+    'C22': ' The blocks include an asserted value three dependency levels below its first input, and six directed suites with that chain next to code that makes its coverage redundant are always part of the sample.',
+    'C25': ' Second part: on a bare TypeSystem, 48 (240) seeded orders of five add_subclass_edge updates and enable_numeric_tower with all six lru-cached queries asked on all pairs after every update and compared with the answers after emptying every lru cache.',
+    'C26': ' Second part (shared with C25): query/update histories on a bare TypeSystem (edges in every order, one edge that only shortens an existing path, the numeric tower); every cached answer of is_subclass, is_subtype, is_maybe_subtype, subtype_distance, get_subclasses, get_superclasses is compared with the answer after emptying every lru cache.',
+    'C27': ' Also proved: a method is registered as under test only if get_class_that_defined_method (assumed, an uninterpreted defining-class function) returns exactly the analysed class (__is_method_defined_in_class). The bounded subject module contains a subclass of an equally named class of another module, and a method counts as defined where its code lives.',
+    'C28': ' Also bounded: MutationController.mutant_count before and after (capped, reordered) enumerations through create_mutants equals the size of the full enumeration, and the enumeration yields min(cap, total) mutants.',
+    'C29': ' The sandbox also holds pre-existing siblings whose names merely start like paths the operations create (newdir.bak, new.txt.orig, newdirx/keep.txt), with four operations writing to them.',
+    'C30': ' Second part: six test cases that change process-wide state and then never return (abandoned by the executor after 0.3 s), each followed by two probes; same state comparison and order-independence check.',
+    'C32': " 'Within the bound plus grace' is decided by the time-outs execute() passes to Thread.join (all finite, sum <= 2 x bound); the wall clock counts only relative to a reference wait of the same shape taken at the same moment (three attempts), so a loaded machine does not alarm.",
+}
+for _k, _v in ROUND3.items():
+    CLAIMS[_k]["text"] += _v
